@@ -238,12 +238,36 @@ fn variants(ctx: &Ctx, bin: &str, dir: &str, thorough: bool) {
         let mut a3 = flags.clone();
         a3.extend(["-f".to_string(), "-".to_string()]);
         check("stdin:file name from a regular file".into(), run_cli_env(bin, &a3, None, &[], false, Some(&namefile)), &a3);
+        // a file name that is not a regular file: /dev/stdin fed by a pipe, and a named pipe (reported size 0)
+        let mut a4 = flags.clone();
+        a4.extend(["-f".to_string(), "/dev/stdin".to_string()]);
+        check("file:/dev/stdin fed by a pipe".into(), run_cli(bin, &a4, Some(&file_bytes(tcs, j % 2 == 0, true))), &a4);
+        let fifo = format!("{dir}/fifo_{j}");
+        if std::process::Command::new("mkfifo").arg(&fifo).status().map(|s| s.success()).unwrap_or(false) {
+            let data = file_bytes(tcs, false, j % 2 == 1);
+            let fifo_w = fifo.clone();
+            let writer = std::thread::spawn(move || {
+                if let Ok(mut f) = std::fs::OpenOptions::new().write(true).open(&fifo_w) {
+                    let _ = f.write_all(&data);
+                }
+            });
+            let mut a5 = flags.clone();
+            a5.extend(["--file".to_string(), fifo.clone()]);
+            check("file:named pipe".into(), run_cli(bin, &a5, None), &a5);
+            // if the program never opened the pipe the writer is still blocked in open(): release it
+            {
+                use std::os::unix::fs::OpenOptionsExt;
+                let _ = std::fs::OpenOptions::new().read(true).custom_flags(0o4000).open(&fifo);
+            }
+            let _ = writer.join();
+            let _ = std::fs::remove_file(&fifo);
+        }
         let _ = std::fs::remove_file(&path);
         let _ = std::fs::remove_file(&namefile);
     });
     run.space(json!({"engine": "environment / placement / descriptor variants", "flag_subsets": subsets.len(), "inputs": inputs.len(),
         "environments": envs.iter().map(|e| e.0).collect::<Vec<_>>(), "placements": ["option look-alikes after / between the test cases are test cases themselves (allow_hyphen_values)"],
-        "stdin": ["regular file as stdin for -", "regular file as stdin for -f -"], "runs": n.load(Ordering::Relaxed)}));
+        "stdin": ["regular file as stdin for -", "regular file as stdin for -f -"], "special_files": ["-f /dev/stdin fed by a pipe", "--file <named pipe>"], "runs": n.load(Ordering::Relaxed)}));
 }
 
 fn tmpdir() -> String {
